@@ -215,3 +215,70 @@ template <class TS, class PxS, class TD, class PxD> static void run_gray_mixed(v
         if (ctx.timed_out()) return;
     }
 }
+
+// Source and destination ORGANISATIONS differ (the functions take two arbitrary views): whole contiguous image, sub-view of a larger
+// canvas (rows not contiguous), up-down flipped view (negative row step), left-right flipped view (x step iterator).  Every ordered pair
+// of organisations x every shape up to LW x LH x 8 modes x 3 thresholds.  Oracle: the documented comparison for every pixel of the
+// destination view, every byte of the destination canvas outside the view unchanged, source canvas unchanged, guards intact.
+static const char* ORG_NAME[4] = {"whole", "sub", "flipud", "fliplr"};
+template <class Px> struct OrgCanvas
+{
+    int org, w, h, cw, ch, x0, y0;
+    Buf<Px> buf;
+    OrgCanvas(int org_, int w_, int h_) : org(org_), w(w_), h(h_), cw(org_ == 1 ? w_ + 3 : w_), ch(org_ == 1 ? h_ + 2 : h_), x0(org_ == 1 ? 2 : 0), y0(org_ == 1 ? 1 : 0), buf(cw, ch) {}
+    // canvas coordinates of view pixel (x, y) — written from the definitions of the organisations, no GIL involved
+    int cx(int x) const { return org == 3 ? w - 1 - x : x0 + x; }
+    int cy(int y) const { return org == 2 ? h - 1 - y : y0 + y; }
+    Px& at(int x, int y) { return reinterpret_cast<Px*>(buf.g.data())[size_t(cy(y)) * size_t(cw) + size_t(cx(x))]; }
+    template <class F> void with_view(F f)
+    {
+        auto v = buf.view();
+        if (org == 0) f(v);
+        else if (org == 1) f(gil::subimage_view(v, x0, y0, w, h));
+        else if (org == 2) f(gil::flipped_up_down_view(v));
+        else f(gil::flipped_left_right_view(v));
+    }
+};
+static void run_gray_layouts(vh::Ctx& ctx)
+{
+    using Px = gil::gray8_pixel_t; using T = uint8_t;
+    const int LW = int(ctx.B("LW", 4)), LH = int(ctx.B("LH", 3));
+    const T ths[3] = {0, 100, 254};
+    for (int so = 0; so < 4; ++so) for (int dorg = 0; dorg < 4; ++dorg)
+    {
+        if (!ctx.take()) continue;
+        for (int w = 1; w <= LW; ++w) for (int h = 1; h <= LH; ++h)
+        {
+            OrgCanvas<Px> S(so, w, h), D(dorg, w, h);
+            for (T t : ths) for (int mode = 0; mode < NMODES; ++mode)
+            {
+                const T m = 200;
+                S.buf.fill_bytes(0x11); D.buf.fill_bytes(0xA5);
+                for (int y = 0; y < h; ++y) for (int x = 0; x < w; ++x) S.at(x, y)[0] = T(90 + 7 * (y * w + x));      // values on both sides of t = 100
+                std::vector<unsigned char> s0(S.buf.g.data(), S.buf.g.data() + S.buf.g.size());
+                S.with_view([&](auto sv) { D.with_view([&](auto dv) { call(mode, sv, dv, t, m); }); });
+                ++ctx.evaluations; ++ctx.nontrivial;
+                const std::string id = vh::S() << "thr_layouts/" << ORG_NAME[so] << ">" << ORG_NAME[dorg] << "/" << w << "x" << h << "/" << MODE_NAME[mode] << "/t=" << int(t);
+                long bad = 0; std::string first;
+                std::vector<char> inside(size_t(D.cw) * size_t(D.ch), 0);
+                for (int y = 0; y < h; ++y) for (int x = 0; x < w; ++x)
+                {
+                    T v = S.at(x, y)[0], got = D.at(x, y)[0];
+                    T exp = expect<T>(mode, v, t, (mode == BIN_REG || mode == BIN_INV) ? T(255) : m);
+                    inside[size_t(D.cy(y)) * size_t(D.cw) + size_t(D.cx(x))] = 1;
+                    if (got != exp) { if (!bad) first = vh::S() << "(" << x << "," << y << ") value " << int(v) << " -> " << int(got) << " expected " << int(exp); ++bad; }
+                }
+                long outside = 0;
+                for (size_t i = 0; i < inside.size(); ++i) if (!inside[i] && D.buf.g.data()[i] != 0xA5) ++outside;
+                if (bad) ctx.fail(id, std::string("threshold!=documented-comparison:") + (mode < TR_T_REG ? "binary" : "truncate"), vh::S() << bad << " wrong pixel(s); first: " << first);
+                if (outside) ctx.fail(id, "write-outside-destination-view", vh::S() << outside << " canvas byte(s) around the destination view changed");
+                if (!D.buf.g.intact()) ctx.fail(id, "write-outside-destination");
+                if (!std::equal(s0.begin(), s0.end(), S.buf.g.data()) || !S.buf.g.intact()) ctx.fail(id, "source-modified");
+                ctx.san_take_lazy([&]() { return id; });
+                ++ctx.witness[std::string("thr_layouts_") + ORG_NAME[so] + ">" + ORG_NAME[dorg]];
+                if (so == 0 && dorg == 1 && h >= 2) ++ctx.witness["thr_contiguous_source_into_sub_view"];
+            }
+        }
+        if (ctx.timed_out()) return;
+    }
+}
